@@ -75,6 +75,12 @@ def job_bytes(j):
     bad, n = run_all(bytes(d), fsweep.worker_path('c6b'), True, only_labels=('e2fsck -fn', 'e2fsck -fy', 'dumpe2fs', 'debugfs script') if not quick else ('e2fsck -fn', 'e2fsck -fy'))
     return (mid, bad, n)
 
+def job_sbpair(j):
+    mid, quick = j
+    labels = ('e2fsck -fn', 'dumpe2fs', 'debugfs script') if quick else ('e2fsck -fn', 'e2fsck -fy', 'dumpe2fs', 'debugfs script', 'e2image -r', 'tune2fs -l', 'resize2fs -P', 'e2freefrag')
+    bad, n = run_all(SBJ[mid], fsweep.worker_path('c6s'), False, only_labels=labels)
+    return (mid, bad, n)
+
 def job_aux(j):
     """auxiliary file (external journal / undo file / qcow2) with one byte replaced"""
     mid, kind, off, val = j
@@ -114,6 +120,7 @@ def dbg_script(img):
 
 def main(tier, only=None):
     global T, DBG_SCRIPT, TINY, AUX
+    TINY = None
     ck = Check('C06', tier, 'fault_enumeration')
     quick = tier == 'quick'
     T = {k: tool(k, 'asan') for k in ('e2fsck', 'dumpe2fs', 'debugfs', 'tune2fs', 'resize2fs', 'e2image', 'e2freefrag', 'e2undo', 'mke2fs')}
@@ -175,6 +182,38 @@ def main(tier, only=None):
                 total += n
                 if bad: record(mid, bad, {'part': 'ii', 'off': j[1], 'val': j[2]})
             ck.part('ii_tiny_image_bytes', mutants=len(jobs), metadata_blocks=len(M))
+    # ---- (ii-b) pairs of superblock geometry fields on the one-group tiny image (k = 2 inside the superblock)
+    if 'ii' in parts and not ck.expired() and 'TINY' in globals() and TINY:
+        import struct as _st
+        from xck.image import SB_FIELDS
+        geo = ['s_inodes_count', 's_blocks_count_lo', 's_first_data_block', 's_log_block_size', 's_log_cluster_size', 's_blocks_per_group', 's_clusters_per_group', 's_inodes_per_group',
+               's_first_ino', 's_inode_size', 's_reserved_gdt_blocks', 's_desc_size', 's_first_meta_bg', 's_log_groups_per_flex', 's_feature_incompat', 's_feature_ro_compat', 's_rev_level']
+        fl = [(n, o, z) for n, o, z in SB_FIELDS if n in geo]
+        singles = []
+        for n, o, z in fl:
+            old = int.from_bytes(TINY[1024 + o:1024 + o + z], 'little'); top = (1 << (8 * z)) - 1
+            for v in sorted(set([0, 1, top, top - 6, old + 1, (old - 1) & top, (old * 2) & top, 1 << (8 * z - 1)]) - {old}):
+                singles.append((n, o, z, v))
+        from xck.crc import crc32c as _crc
+        def sbmut(parts_):
+            d = bytearray(TINY)
+            for n, o, z, v in parts_: d[1024 + o:1024 + o + z] = v.to_bytes(z, 'little')
+            d[1024 + 0x3FC:1024 + 0x400] = _st.pack('<I', _crc(0xffffffff, bytes(d[1024:1024 + 0x3FC])))
+            return bytes(d)
+        pj = []
+        for i in range(len(singles)):
+            for k in range(i + 1, len(singles)):
+                a, b = singles[i], singles[k]
+                if a[0] == b[0]: continue
+                if quick and not ({a[0], b[0]} & {'s_inodes_per_group', 's_blocks_per_group', 's_clusters_per_group', 's_inodes_count'}): continue
+                pj.append(('tiny/sb.%s=0x%x&%s=0x%x' % (a[0], a[3], b[0], b[3]), [a, b]))
+        SBJ = {mid: sbmut(parts_) for mid, parts_ in pj}
+        globals()['SBJ'] = SBJ
+        res = pmap(job_sbpair, [(mid, quick) for mid, _ in pj], chunksize=16)
+        for mid, bad, n in res:
+            total += n
+            if bad: record(mid, bad, {'part': 'ii-b', 'mutant': mid})
+        ck.part('iib_superblock_geometry_pairs', mutants=len(pj), fields=len(fl))
     # ---- (iii) auxiliary files
     if 'iii' in parts and not ck.expired():
         AUX = {}
@@ -233,7 +272,7 @@ def main(tier, only=None):
             if ck.expired(): ck.add(exhaustive=False); break
     ck.add(evaluations=total, distinct_nontrivial=max(2, sum(v.get('mutants', v.get('pairs', 0)) for v in ck.parts.values())), states=total, transitions=total, traces_validated_against_impl=total,
            rule='AddressSanitizer builds of the tools; inputs: (i) every single-field catalogue mutant of corpus images (re-sealed checksum where one would hide the field), (ii) every byte of every metadata block of a 128-block image '
-                'set to 0x00/0xff/^0x01/^0x80, (iii) the same treatments over the headers/tables of an external journal, an undo file and a qcow2 image, (iv, thorough) all pairs of per-field representatives; '
+                'set to 0x00/0xff/^0x01/^0x80 and every pair of values of its superblock geometry fields (re-sealed checksum), (iii) the same treatments over the headers/tables of an external journal, an undo file and a qcow2 image, (iv, thorough) all pairs of per-field representatives; '
                 'invocations: e2fsck -fn/-fy/-fp(/-fyD), dumpe2fs(-x -b), a 45-command read-only debugfs script(-c), tune2fs -l, resize2fs -P, e2image -r/-Q, e2freefrag, e2undo(-n/-f); '
                 'oracle: no sanitizer report, no fatal signal, exit within 20 s (150 s on re-run), documented exit status; evaluations = tool runs, distinct_nontrivial = distinct mutated inputs',
            samples=['ext4csum/ino12.i_size_lo=0x0+seal :: e2fsck -fy', 'tiny/blk5+17=0xff :: e2fsck -fn', 'undo+40=0xff :: e2undo'])
